@@ -507,7 +507,7 @@ def lattice_part(ck, tier, pairing):
         grids = {str(oid): {"xs": o["xs"], "ys": o["ys"], "zs": o["zs"]} for (pid, oid), o in spec.items() if pid == p["id"]}
         if not grids:
             raise MachineryError(f"no TLC output for program {p['id']}")
-        items.append((p, grids, max(nscenes, p.get("nscenes", 0))))
+        items.append((p, grids, min(max(nscenes, p.get("nscenes", 0)), p.get("nscenes_cap", 10**6))))
     results = pmap(real_program, items, procs=6, chunk=1)
 
     fam_stats = {}
